@@ -200,6 +200,10 @@ func (b *SchedBus) Info(e *wire.Envelope) MsgInfo {
 	switch x := e.Msg.(type) {
 	case *client.ChannelUpdateMsg:
 		m.T, m.Ver, m.Ch = "upd", int(x.State.Version), x.State.ID
+	case *client.VirtualChannelFundingProposalMsg:
+		m.T, m.Ver, m.Ch = "vfund", int(x.State.Version), x.State.ID
+	case *client.VirtualChannelSettlementProposalMsg:
+		m.T, m.Ver, m.Ch = "vsettle", int(x.State.Version), x.State.ID
 	case *client.ChannelUpdateAccMsg:
 		m.T, m.Ver, m.Ch = "acc", int(x.Version), x.ChannelID
 	case *client.ChannelUpdateRejMsg:
